@@ -169,6 +169,25 @@ impl StartLine {
     }
 }
 
+/// Safety valve for broken trees: after three consecutive cases that ended on a watchdog the
+/// remaining cases are reported inconclusive at once (the run then exits 2) instead of each
+/// waiting for its watchdogs.
+static HUNG: AtomicU32 = AtomicU32::new(0);
+
+pub fn with_breaker<C>(case: &C, f: impl Fn(&C) -> vcore::Outcome) -> vcore::Outcome {
+    if HUNG.load(Ordering::SeqCst) >= 3 {
+        return vcore::Outcome::inconclusive("circuit breaker: three consecutive cases hung");
+    }
+    let o = f(case);
+    match &o {
+        vcore::Outcome::Inconclusive { .. } => {
+            HUNG.fetch_add(1, Ordering::SeqCst);
+        }
+        _ => HUNG.store(0, Ordering::SeqCst),
+    }
+    o
+}
+
 pub fn payload_string(p: &(dyn std::any::Any + Send)) -> String {
     if let Some(s) = p.downcast_ref::<String>() {
         s.clone()
@@ -190,7 +209,9 @@ fn main() {
         prev(info)
     }));
     let mut s = Session::new();
-    direct::run(&mut s);
-    rt::run(&mut s);
+    // a violation in the first part ends the run (the second part would only add watchdog time)
+    if direct::run(&mut s) {
+        rt::run(&mut s);
+    }
     s.finish();
 }
